@@ -118,7 +118,7 @@ def facts_path(repo=REPO, config="debug"):
     return p
 
 
-def _gc_cache(keep, max_entries=12):
+def _gc_cache(keep, max_entries=int(os.environ.get("DMX_CACHE_MAX", "12"))):
     try:
         ents = [(os.path.getmtime(os.path.join(CACHE, e)), e) for e in os.listdir(CACHE)]
         ents.sort(reverse=True)
@@ -150,6 +150,8 @@ class Facts:
         self.mir = {b["def"]: b for b in raw["mir"]}
         self.consts = {c["def"]: c for c in raw["consts"]}
         self.adts = {a["def"]: a for a in raw["adts"]}
+        from . import thirlib
+        thirlib.register_adts(self.adts)
 
     def const(self, name):
         c = self.consts.get(name)
